@@ -289,45 +289,6 @@ end Aoe.Trig
 namespace Aoe.Trig
 open List
 
-/-! ### `move_triggers` with arbitrary duplicate-free ids (invalid ids are rejected) -/
-
-theorem mem_moveSpec_of_mem {order ids : List Nat} {k i : Nat} (h : i ∈ ids) : i ∈ moveSpec order ids k := by
-  unfold moveSpec; simp [h]
-
-theorem move_sound {c : Bool} {tm tm' : TM} (hi : Inv tm) {ids : List Nat} {k : Nat} (hnd : ids.Nodup)
-    (h : move tm ids k = .ok tm') : Good c tm tm' ∧ tm'.next = tm.next := by
-  have hne : ids ≠ [] := by
-    intro e; subst e; simp [move] at h
-  by_cases hall : ∀ i ∈ ids, i < tm.trigs.length
-  · obtain ⟨D, tm2, _, _, hm, g, hn, _⟩ := move_spec (c := c) hi hne hnd hall k
-    rw [hm] at h; cases h; exact ⟨g, hn⟩
-  · exfalso
-    have hall' : ∃ i, i ∈ ids ∧ ¬ i < tm.trigs.length := by
-      apply Classical.byContradiction
-      intro hno
-      apply hall
-      intro i hi'
-      apply Classical.byContradiction
-      intro hlt
-      exact hno ⟨i, hi', hlt⟩
-    obtain ⟨i, himem, hige⟩ := hall'
-    obtain ⟨tm1, h1, _, ht1, _, hp1, hh1, _⟩ := readOrder_good (c := c) hi
-    unfold move at h
-    simp only [hne, if_false, h1, moveOrder_eq_spec k hp1.1] at h
-    unfold reorder at h
-    simp only [moveSpec_ne_nil hne, if_false] at h
-    unfold reorderCore at h
-    have hro : readOrder { tm1 with order := moveSpec tm1.order ids k } = .ok { tm1 with order := moveSpec tm1.order ids k } := by
-      unfold readOrder
-      have : ({ tm1 with order := moveSpec tm1.order ids k } : TM).hashed = uids { tm1 with order := moveSpec tm1.order ids k } := by
-        show tm1.hashed = _
-        rw [hh1]; simp [uids, ht1]
-      rw [if_pos this]
-    rw [hro] at h
-    obtain ⟨e, he⟩ := pick_error_of_invalid (trigs := tm1.trigs) (mem_moveSpec_of_mem (order := tm1.order) (k := k) himem)
-      (by rw [ht1]; omega)
-    simp [he] at h
-
 /-! ### copy_trigger_tree_per_player -/
 
 theorem pick_tid {tm : TM} (hi : Inv tm) : ∀ {known : List Nat} {srcs : List Trig}, pick tm.trigs known = .ok srcs →
